@@ -188,19 +188,28 @@ def _real_eval(cmds, ctx):
         return False, type(e).__name__
 
 
-def _relaxed_eval(cmds, ctx):
-    """consensus verdict if arithmetic opcodes took operands of any length (used only to recognise programs that leave
-    the property's scope: "arithmetic and comparisons on operands of at most 4 bytes")"""
+def _out_of_scope(cmds, ctx):
+    """True when some arithmetic opcode meets an operand longer than 4 bytes while consensus executes the program
+    (the run with CScriptNum's 4-byte limit differs from the run without it): such programs are outside the property
+    ("arithmetic and comparisons on operands of at most 4 bytes"); consensus fails them, the repository computes on."""
+    strict = SO.run_script(cmds, ctx)
     keep = SO.MAX_NUM_SIZE
     SO.MAX_NUM_SIZE = 10 ** 9
     try:
-        return SO.eval_script(cmds, ctx)
+        relaxed = SO.run_script(cmds, ctx)
     finally:
         SO.MAX_NUM_SIZE = keep
+    return strict != relaxed
 
 
 def _fmt(cmds):
-    return [SO.OPCODE_NAMES.get(c, "OP_%d" % c) if isinstance(c, int) else c.hex() or "<>" for c in cmds]
+    def one(c):
+        if isinstance(c, int):
+            return SO.OPCODE_NAMES.get(c, "OP_%d" % c)
+        if len(c) > 40:
+            return "<%d bytes %s...>" % (len(c), c[:4].hex())
+        return c.hex() or "<>"
+    return [one(c) for c in cmds]
 
 
 def _label(cmds, ctx, real_ok, exc):
@@ -214,6 +223,8 @@ def _label(cmds, ctx, real_ok, exc):
             feats.append(nm)
     if _has_multi_else(cmds):
         feats.append("multiple-ELSE")
+    if any(isinstance(c, bytes) and len(c) > SO.MAX_ELEMENT_SIZE for c in cmds):
+        feats.append("push > 520 bytes")
     return "accept/reject mismatch (consensus %s, buidl %s%s); program uses %s" % (
         "accepts" if not real_ok else "rejects", "accepts" if real_ok else "rejects", " by raising " + exc if exc else "",
         ", ".join(feats) or "none of the opcodes with known findings")
@@ -241,8 +252,8 @@ def programs(seed, tier):
             exceptions[exc] = exceptions.get(exc, 0) + 1
         if len(samples) < 3 and evals % 997 == 1:
             samples.append({"family": family, "program": _fmt(cmds), "ctx": ctx, "consensus": want, "buidl": got})
-        if want != got and _relaxed_eval(cmds, ctx) == got and _relaxed_eval(cmds, ctx) != want:
-            # only explained by an arithmetic operand longer than 4 bytes somewhere in the run: outside the property's scope
+        if want != got and _out_of_scope(cmds, ctx):
+            # an arithmetic operand longer than 4 bytes occurs in the run: outside the property's scope
             out_of_scope[0] += 1
             if not out_of_scope[1]:
                 out_of_scope[1].append({"program": _fmt(cmds), "ctx": ctx, "consensus": want, "buidl": got})
@@ -283,6 +294,11 @@ def programs(seed, tier):
                 for locktime in (0, 499999999, 500000000, 2**32 - 1):
                     for sequence in _SEQ:
                         check([e, code], {"version": version, "locktime": locktime, "sequence": sequence}, "<operand> CLTV|CSV")
+    # pushes longer than MAX_SCRIPT_ELEMENT_SIZE make a script invalid, executed or not
+    for big in (b"\x01" * 520, b"\x01" * 521):
+        check([big], ctx0, "push of 520 / 521 bytes")
+        check([0x51, big, 0x75], ctx0, "push of 520 / 521 bytes")
+        check([0x00, IF, big, ENDIF, 0x51], ctx0, "push of 520 / 521 bytes")
     # (2) seeded random properly nested programs of <= 40 operations
     n_rand = 30000 if tier == "quick" else 400000
     for i in range(n_rand):
@@ -298,7 +314,66 @@ def programs(seed, tier):
             "out_of_scope_operand_longer_than_4_bytes": out_of_scope[0], "out_of_scope_example": out_of_scope[1]}
 
 
-BOUNDED = [("rt-contracts", rt_contracts), ("programs", programs)]
+def codec(seed, tier):
+    """number codec on integers of every size (the all-integers statement that the symbolic run leaves as TODO):
+    encode_num(n) == scriptnum_enc(n), minimal, decode_num inverts it; decode_num == scriptnum_dec and the truth value
+    == cast_to_bool on byte strings of every length 0..3 exhaustively (thorough) / over boundary bytes (quick)"""
+    from buidl import op
+    rng = random.Random(seed * 31 + 5)
+    evals = 0
+    failures = []
+    distinct = set()
+    samples = []
+
+    def bad(what, inputs, violated):
+        if len(failures) < 6:
+            failures.append({"what": "codec: " + what, "inputs": jsonable(inputs), "violated": violated})
+
+    ints = set()
+    for k in range(0, 601):
+        for d in (-1, 0, 1):
+            ints.add(2 ** k + d)
+            ints.add(-(2 ** k + d))
+    ints.update(range(-70000, 70001) if tier != "quick" else range(-3000, 3001))
+    for _ in range(20000 if tier == "quick" else 300000):
+        v = rng.getrandbits(rng.choice([8, 16, 24, 31, 32, 33, 40, 64, 128, 521]))
+        ints.add(v if rng.random() < 0.5 else -v)
+    for n in ints:
+        evals += 1
+        e = op.encode_num(n)
+        v = []
+        if e != SO.scriptnum_enc(n):
+            v.append("encode_num(n) == spec.script_ops.scriptnum_enc(n)")
+        if not SO.is_minimal_num(e):
+            v.append("spec.script_ops.is_minimal_num(encode_num(n))")
+        if op.decode_num(e) != n or SO.scriptnum_dec(e) != n:
+            v.append("decode_num(encode_num(n)) == n")
+        if v:
+            bad("integer %d" % n, {"n": n}, v)
+    distinct.update(ints)
+    vals = list(range(256)) if tier != "quick" else [0, 1, 2, 0x7e, 0x7f, 0x80, 0x81, 0xfe, 0xff]
+    for k in range(0, 4):
+        for t in itertools.product(vals, repeat=k):
+            b = bytes(t)
+            evals += 1
+            distinct.add(b)
+            d = op.decode_num(b)
+            v = []
+            if d != SO.scriptnum_dec(b):
+                v.append("decode_num(b) == spec.script_ops.scriptnum_dec(b)")
+            if (d != 0) != SO.cast_to_bool(b):
+                v.append("(decode_num(b) != 0) == spec.script_ops.cast_to_bool(b)")
+            if SO.is_minimal_num(b) and op.encode_num(d) != b:
+                v.append("is_minimal_num(b) -> encode_num(decode_num(b)) == b")
+            if v:
+                bad("bytes " + b.hex(), {"b": b}, v)
+    samples.append({"n": str(2 ** 600 + 1), "encoded_len": len(op.encode_num(2 ** 600 + 1))})
+    return {"evaluations": evals, "distinct": len(distinct), "failures": failures, "samples": samples,
+            "bound": "integers +-(2^k + {-1,0,1}) for k <= 600, a dense range around 0, seeded random integers up to 521 bits; "
+                     "byte strings of length 0..3 over %s" % ("all byte values" if tier != "quick" else "9 boundary byte values")}
+
+
+BOUNDED = [("rt-contracts", rt_contracts), ("programs", programs), ("codec", codec)]
 
 TRUSTED_BASE = ["pyvc symbolic executor (A-ENGINE)", "z3 5.1",
                 "spec functions verif/specs/script_ops.py transcribed from interpreter.cpp / script.h / BIP65 / BIP68 / BIP112 / BIP342 (A-SPEC)",
